@@ -526,7 +526,7 @@ LOOP1_ITER = "self.interpret_scopes(independent=independent, **scope_spec or {})
 HEADER = """import CogentModel.Model.RulesPrims
 /- GENERATED by translator/c07_rules2lean.py from cogent3/recalculation/scope.py and
    cogent3/evolve/parameter_controller.py on every run -- do not edit.  One python statement per line; the
-   primitives are those of Model/RulesPrims.lean.  Proofs/RulesGen.lean proves every definition below equal to
+   primitives are those of Model/RulesPrims.lean.  Props/C07Gen.lean proves every definition below equal to
    the hand model (Model/ParamRules.lean, Model/Controller.lean) for all arguments. -/
 set_option linter.unusedVariables false
 """
